@@ -178,7 +178,19 @@ def run_check(pid, tier, seed, args, t0):
                 print("CHECKER-ERROR property=%s bounded harness crashed:\n%s" % (pid, harness_crash))
             bounded['ran'] = True
             bounded['wall_s'] = round(time.time() - tb, 2)
-            for k, case in enumerate(bounded.get('failures', [])[:20]):
+            # failures that a listed known finding covers are not allowed to crowd out other failures: the first 20 *unlisted* ones get replay files
+            unlisted, listed = [], []
+            for case in bounded.get('failures', []):
+                probe = {'obligation': 'bounded: ' + case.get('contract', ''), 'key': case.get('key', ''), 'what': case.get('what', '')}
+                (listed if match_known(known, pid, probe) else unlisted).append(case)
+            seen_kf = set()
+            for case in listed:
+                kf = match_known(known, pid, {'obligation': 'bounded: ' + case.get('contract', ''), 'key': case.get('key', ''), 'what': case.get('what', '')})
+                if kf not in seen_kf:
+                    seen_kf.add(kf)
+                    print("KNOWN-FINDING: property=%s %s" % (pid, kf))
+            bounded['known_finding_cases'] = len(listed)
+            for k, case in enumerate(unlisted[:20]):
                 path = os.path.join(ROOT, 'replay', '%s_bounded_%d.json' % (pid, k))
                 rec = {'property': pid, 'kind': 'bounded', 'obligation': case.get('contract', ''), 'bounded_case': case,
                        'reproduced': True, 'tree': git_head(SRC.REPO)}
@@ -306,11 +318,17 @@ def uses_uninterpreted(ident):
 
 
 def match_known(known, pid, v):
+    """a finding is identified by the exact key of the failing obligation/case, or (bounded cases whose random inputs differ from
+    seed to seed) by the exact label of the bounded check that fails plus a pattern the description of the failing input must match"""
+    import re
     for f in known.get('findings', []):
         if f.get('property') != pid:
             continue
         if f.get('key') and f['key'] == v.get('key'):
             return f.get('what', f['key'])
+        if f.get('bounded_check') and v.get('obligation') == 'bounded: ' + f['bounded_check']:
+            if not f.get('input_pattern') or re.search(f['input_pattern'], v.get('what', '') or ''):
+                return f.get('what', f['bounded_check'])
     return None
 
 
